@@ -21,12 +21,52 @@ def _census():
     return _CENSUS
 
 
+_ITEMS = None
+
+
+def _moved_items(d):
+    """[(new_path, reviewed_path)] for ADTs / free functions of this crate whose last path segment matches exactly one reviewed
+    item that no longer exists under its reviewed path (rules/known_items.json)."""
+    global _ITEMS
+    if _ITEMS is None:
+        p = os.path.join(os.path.dirname(os.path.dirname(os.path.abspath(__file__))), "rules", "known_items.json")
+        try:
+            _ITEMS = json.load(open(p))
+        except FileNotFoundError:
+            _ITEMS = {}
+    name = d["crate"]
+    out = []
+    for kind, now in (("adts", {a["path"] for a in d["adts"] if a["path"].startswith(name + "::")}),
+                      ("free_fns", {strip_generics(b["path"]) for b in d["bodies"] if b["kind"] == "Fn"})):
+        old = set((_ITEMS.get(kind) or {}).get(name) or [])
+        if not old:
+            continue
+        gone = old - now
+        new = now - old
+        by_last = {}
+        for g in gone:
+            by_last.setdefault(g.split("::")[-1], []).append(g)
+        for n in new:
+            c = by_last.get(n.split("::")[-1], [])
+            same_last_new = [x for x in new if x.split("::")[-1] == n.split("::")[-1]]
+            if len(c) == 1 and len(same_last_new) == 1 and "{" not in n and "<" not in n:
+                out.append((n, c[0]))
+    return out
+
+
 class Crate:
     def __init__(self, path):
         raw = open(path).read()
         name = os.path.basename(path).split(".")[0]
         raw = _CRATE_RE.sub(name + "::", raw)
         d = json.loads(raw)
+        # items (types, free functions) that were moved to another module keep their reviewed path: the new path is rewritten
+        # textually to the reviewed one, so rules anchored on def-paths are indifferent to module re-organisation
+        self.moved = _moved_items(d)
+        if self.moved and not os.environ.get("VERIF_NO_INLINE"):
+            for new, old in sorted(self.moved, key=lambda x: -len(x[0])):
+                raw = re.sub(re.escape(new) + r"(?![A-Za-z0-9_])", old, raw)
+            d = json.loads(raw)
         self.name = d["crate"]
         self.is_test = d["is_test"]
         self.cfg = d["cfg"]
